@@ -201,7 +201,9 @@ def gossip_family(w, pid, corrupt, corrupt_what, extra_kinds=(), mc=None, assump
     traces, sums = traces + t3, sums + s3
     if pid in ("C01", "C02"):
         # fast-sync: fresh nodes and nodes with history (resets behind their own tip)
-        t7, s7 = drive_all(w, gossip_specs(w, [("ffx", dict(traces=4 if q else 10, n=0, steps=240 if q else 400))]), mode="ff")
+        t7, s7 = drive_all(w, gossip_specs(w, [("ffx", dict(traces=4 if q else 10, n=0, steps=240 if q else 400)),
+                                               # a node with history (and a database that already holds blocks) resets
+                                               ("ffxBd", dict(traces=2 if q else 4, n=4, steps=260, store="badger", cache=400))]), mode="ff")
         traces, sums = traces + t7, sums + s7
     tvs = w.validate_many(traces, par=6 if q else 8)
     violations, known_hits, drift = judge(w, pid, tvs, known)
